@@ -130,6 +130,13 @@ fn establish_substitutions(o: &mut Outcome, seed: u64) {
     c2.push(0);
     present(o, "context(length)", &m.cfg, ag.cid, cb, mb, &c2);
     present(o, "context(fresh)", &m.cfg, ag.cid, cb, mb, b"another context");
+    {
+        use sha3::{Digest, Sha3_256};
+        let d = Sha3_256::digest(&ag.ctx_bytes).to_vec();
+        present(o, "context(digest of the original)", &m.cfg, ag.cid, cb, mb, &d);
+        let own = za::Context::new(&ag.ctx_bytes).as_bytes();
+        present(o, "context(context bytes of the original)", &m.cfg, ag.cid, cb, mb, &own);
+    }
     // a long session transcript as context: a proof made for it must not verify under a
     // transcript that differs late
     {
